@@ -18,8 +18,8 @@ Rec == st = "recorded"
 Generates == Rec => (C.genErr = "" \/ C.conflict)
 Parses == (Rec /\ C.genErr = "") => \A k \in 1..Len(C.runs) : C.runs[k].err = ""
 EventsConform == (Rec /\ C.genErr = "") => \A k \in 1..Len(C.runs) :
-   C.runs[k].err = "" => C.runs[k].events = Events(C.rules, C.runs[k].tokens, C.runs[k].eoi)
+   C.runs[k].err = "" => C.runs[k].events = Events(C.rules, C.runs[k].tokens, C.runs[k].eoi, C.fixws)
 DebugAlias == [ci |-> ci, bad |-> IF st # "recorded" \/ C.genErr # "" THEN {} ELSE
-   { <<C.runs[k].text, C.runs[k].events, Events(C.rules, C.runs[k].tokens, C.runs[k].eoi)>> :
-       k \in { k \in 1..Len(C.runs) : C.runs[k].events # Events(C.rules, C.runs[k].tokens, C.runs[k].eoi) } }]
+   { <<C.runs[k].text, C.runs[k].events, Events(C.rules, C.runs[k].tokens, C.runs[k].eoi, C.fixws)>> :
+       k \in { k \in 1..Len(C.runs) : C.runs[k].events # Events(C.rules, C.runs[k].tokens, C.runs[k].eoi, C.fixws) } }]
 =============================================================================
